@@ -4,7 +4,7 @@
 # read through the harness's path dependency, is never touched). Prints one line per check.
 # The canonical way (git -C /repo apply; ./run.sh; git -C /repo checkout -- .) gives the same verdicts.
 P=$(readlink -f "$1"); shift
-S=/tmp/mut_try; H=/tmp/try_h
+S=/tmp/mut_try$LANE; H=/tmp/try_h$LANE
 HEAD=$(git -C /repo rev-parse HEAD)
 if [ ! -d $S ]; then git -C /repo worktree add -q --detach $S $HEAD || exit 2; fi
 git -C $S checkout -q --detach $HEAD && git -C $S checkout -q -- . && git -C $S clean -fdq || exit 2
